@@ -46,7 +46,9 @@ Init == /\ api \in Apis
         /\ \E k \in {n - 1, n, n + 1} : items \in Shapes(k)
         \* which unique batch item ids the response items echo: their own, all the first one's, none, swapped.
         \* Items are matched by position; the echoed ids never change what the caller must get.
-        /\ idpat \in IF api = "Batch" /\ n = 2 /\ hdr = "match" /\ Len(items) = 2 THEN {"own", "dup", "none", "swap"} ELSE {"own"}
+        \* "short" / "long": ids of one byte / nine bytes that no request carried (the library's own ids are eight bytes long).
+        /\ idpat \in IF api = "Batch" /\ n = 2 /\ hdr = "match" /\ Len(items) = 2 THEN {"own", "dup", "none", "swap", "short", "long"}
+                      ELSE IF hdr = "match" /\ Len(items) = n THEN {"own", "none", "short", "long"} ELSE {"own"}
         \* the continuation option the batch was sent with: it tells the server what to do, it never relaxes what the client must check
         /\ opt \in IF api = "Batch" /\ n >= 2 /\ hdr = "match" /\ Len(items) = n /\ idpat = "own" THEN {"unset", "Continue", "Stop", "Undo"} ELSE {"unset"}
         /\ pc = "recv" /\ outcome = "none" /\ carries = FALSE /\ lenient = FALSE
